@@ -104,7 +104,68 @@ func c20Notify(d *DTLSR, b bpv7.Bundle) {
 	d.NotifyNewBundle(bp)
 }
 
+// c20Guard runs f, recovering a panic and giving up after a few seconds (a recomputation that does
+// not return keeps the instance's mutex: the instance is abandoned).
+func c20Guard(f func()) (status string) {
+	done := make(chan string, 1)
+	go func() {
+		defer func() {
+			if r := recover(); r != nil {
+				done <- "panic"
+			}
+		}()
+		f()
+		done <- "ok"
+	}()
+	select {
+	case st := <-done:
+		return st
+	case <-time.After(5 * time.Second):
+		return "hang"
+	}
+}
+
+var c20Hangs int
+
+func c20CfgStr(cfg c20Config) string {
+	var ls []string
+	for u := 0; u < cfg.n; u++ {
+		for v := 0; v < cfg.n; v++ {
+			switch l := cfg.links[u][v]; l.kind {
+			case c20Live:
+				ls = append(ls, fmt.Sprintf("%d>%d:L", u, v))
+			case c20Lost:
+				ls = append(ls, fmt.Sprintf("%d>%d:%d", u, v, l.age))
+			}
+		}
+	}
+	return c20Join(ls)
+}
+
+// c20Own checks the own link state right after a peer report: live = 0, lost = the clock reading
+// at the time of the call. Problems are collected and printed by the caller.
+func c20Own(d *DTLSR, v int, up bool, before bpv7.DtnTime) string {
+	after := bpv7.DtnTimeNow()
+	d.dataMutex.RLock()
+	ts, present := d.peers.Peers[c20Eid(v)]
+	_, tracked := d.nodeIndex[c20Eid(v)]
+	d.dataMutex.RUnlock()
+	ok := 0
+	if up && present && ts == 0 && tracked {
+		ok = 1
+	}
+	if !up && present && ts != 0 && ts >= before && ts <= after {
+		ok = 1
+	}
+	what := "down"
+	if up {
+		what = "up"
+	}
+	return fmt.Sprintf("own %s %d %d", what, v, ok)
+}
+
 type c20Inst struct {
+	own   []string
 	d     *DTLSR
 	net   *verifNet
 	mocks map[int]*verifMockCLA
@@ -127,7 +188,7 @@ func (in *c20Inst) mock(i int) *verifMockCLA {
 
 // apply drives the instance to the configuration and recomputes; returns T0, J and whether a
 // recomputation happened.
-func (in *c20Inst) apply(cfg c20Config, skip func(u int) bool) (t0 bpv7.DtnTime, j uint64, recomputed bool) {
+func (in *c20Inst) apply(cfg c20Config, skip func(u int) bool) (t0 bpv7.DtnTime, j uint64, recomputed bool, status string) {
 	d := in.d
 	// (1) own peers through the real API
 	for v := 1; v < cfg.n; v++ {
@@ -139,6 +200,7 @@ func (in *c20Inst) apply(cfg c20Config, skip func(u int) bool) (t0 bpv7.DtnTime,
 		case c20Live:
 			if !present || cur != 0 {
 				d.ReportPeerAppeared(in.mock(v))
+				in.own = append(in.own, c20Own(d, v, true, 0))
 			}
 		case c20Lost, c20Absent:
 			if l.kind == c20Absent && !present {
@@ -147,7 +209,9 @@ func (in *c20Inst) apply(cfg c20Config, skip func(u int) bool) (t0 bpv7.DtnTime,
 			if !present {
 				d.ReportPeerAppeared(in.mock(v))
 			}
+			before := bpv7.DtnTimeNow()
 			d.ReportPeerDisappeared(in.mock(v))
+			in.own = append(in.own, c20Own(d, v, false, before))
 		}
 	}
 	// (2) the reference instant
@@ -200,9 +264,32 @@ func (in *c20Inst) apply(cfg c20Config, skip func(u int) bool) (t0 bpv7.DtnTime,
 	d.dataMutex.RLock()
 	recomputed = d.peerChange || d.receivedChange
 	d.dataMutex.RUnlock()
-	d.recomputeCron()
+	status = c20Guard(d.recomputeCron)
 	t1 := bpv7.DtnTimeNow()
-	return t0, uint64(t1 - t0), recomputed
+	return t0, uint64(t1 - t0), recomputed, status
+}
+
+// observe applies a configuration and prints the observation; false = the instance is dead.
+func (in *c20Inst) observe(w *bufio.Writer, cfg c20Config, skip func(u int) bool) bool {
+	t0, j, rec, status := in.apply(cfg, skip)
+	// own-link observations: print the failures, and a sample of the successes
+	for i, o := range in.own {
+		if strings.HasSuffix(o, " 0") || (i == 0 && c20Seq%16 == 0) {
+			fmt.Fprintln(w, o)
+		}
+	}
+	in.own = in.own[:0]
+	if status != "ok" {
+		fmt.Fprintf(w, "%s %d %s\n", status, cfg.n, c20CfgStr(cfg))
+		if status == "hang" {
+			c20Hangs++
+		}
+		return false
+	}
+	if rec {
+		fmt.Fprintln(w, in.tabLine(cfg.n, t0, j))
+	}
+	return true
 }
 
 func c20LinkStr(u, v string, ts, t0 bpv7.DtnTime) string {
@@ -483,15 +570,30 @@ func c20Scenario(w *bufio.Writer, r *verifRng, scratch string, k int) {
 	net := &verifNet{}
 	n := 3 + r.intn(4)
 	cfg := c20RandomConfig(r, n)
-	// own links: mostly live, so that convergence senders exist
-	for v := 1; v < n; v++ {
-		switch x := r.intn(10); {
-		case x < 5:
-			cfg.links[0][v] = c20Link{kind: c20Live}
-		case x < 7:
-			cfg.links[0][v] = c20Link{kind: c20Lost, age: c20RandomAge(r)}
-		default:
-			cfg.links[0][v] = c20Link{kind: c20Absent}
+	// own links: one or two live peers, perhaps a lost one, the other nodes only reachable through
+	// them — so that most unicast bundles have to follow the routing table
+	if k%3 != 0 {
+		live := 1 + r.intn(2)
+		for v := 1; v < n; v++ {
+			switch {
+			case v <= live:
+				cfg.links[0][v] = c20Link{kind: c20Live}
+			case v == live+1 && r.intn(2) == 0:
+				cfg.links[0][v] = c20Link{kind: c20Lost, age: c20RandomAge(r)}
+			default:
+				cfg.links[0][v] = c20Link{kind: c20Absent}
+			}
+		}
+	} else {
+		for v := 1; v < n; v++ {
+			switch x := r.intn(10); {
+			case x < 5:
+				cfg.links[0][v] = c20Link{kind: c20Live}
+			case x < 7:
+				cfg.links[0][v] = c20Link{kind: c20Lost, age: c20RandomAge(r)}
+			default:
+				cfg.links[0][v] = c20Link{kind: c20Absent}
+			}
 		}
 	}
 	mocks := map[int]*verifMockCLA{}
@@ -718,8 +820,7 @@ func TestVerifC20(t *testing.T) {
 		if cfg, ok := c20ParseCfgFromTab(rec.MinimalInput); ok {
 			for i := 0; i < 5; i++ {
 				in := c20NewInst(core)
-				t0, j, _ := in.apply(cfg, nil)
-				fmt.Fprintln(w, in.tabLine(cfg.n, t0, j))
+				in.observe(w, cfg, nil)
 			}
 			var dests []int
 			for i := 1; i < cfg.n; i++ {
@@ -768,10 +869,12 @@ func TestVerifC20(t *testing.T) {
 			_, has := in.d.receivedData[c20Eid(u)]
 			return empty && !has && (code+u)%2 == 0
 		}
-		t0, j, rec := in.apply(cfg, skip)
-		if rec {
-			fmt.Fprintln(w, in.tabLine(3, t0, j))
-			nTab++
+		if c20Hangs < 3 {
+			if in.observe(w, cfg, skip) {
+				nTab++
+			} else {
+				in = nil
+			}
 		}
 		if k%2 == 0 || thorough {
 			c20LibLines(w, 3, c20StaticArcs(cfg), 0, []int{1, 2})
@@ -788,12 +891,38 @@ func TestVerifC20(t *testing.T) {
 		n := 2 + r.intn(maxN-1)
 		in := c20NewInst(core)
 		chain := 1 + r.intn(4)
+		dead := false
 		for s := 0; s < chain; s++ {
+			grown := false
+			if s > 0 && n < maxN && r.intn(2) == 0 {
+				// a node nobody has mentioned so far shows up in NEWER link state of known nodes
+				n++
+				grown = true
+			}
 			cfg := c20RandomConfig(r, n)
-			skip := func(u int) bool { return s > 0 && r.intn(6) == 0 }
-			t0, j, rec := in.apply(cfg, skip)
-			if rec {
-				fmt.Fprintln(w, in.tabLine(n, t0, j))
+			if grown {
+				cfg.links[0][n-1] = c20Link{kind: c20Absent}
+				for v := 0; v < n; v++ {
+					cfg.links[n-1][v] = c20Link{kind: c20Absent}
+				}
+				u := 1 + r.intn(n-2+1)
+				if u >= n-1 {
+					u = 1
+				}
+				if n > 2 {
+					cfg.links[u][n-1] = c20Link{kind: c20Live}
+				}
+			}
+			skip := func(u int) bool {
+				if grown {
+					return u == n-1 // the new node itself stays silent
+				}
+				return s > 0 && r.intn(6) == 0
+			}
+			if c20Hangs < 3 && !dead {
+				if !in.observe(w, cfg, skip) {
+					dead = true
+				}
 			}
 			if k%3 == 0 {
 				var dests []int
